@@ -48,6 +48,45 @@ Definition check_sparse (c : sparse_case) : N :=
           && leq (to_dense (idim, combine ipos ivals)) iback
        then V_OK else V_MISMATCH.
 
+(* parts: (dimension, positions, value bits, implementation: None = refused, Some (positions, value bits,
+   to_dense bits, get bits per index)).  Oracle (distinct in-range positions): reading the vector back gives
+   every supplied value bit-identically at its position (-0.0 as +0.0) and +0.0 everywhere else. *)
+Definition parts_case := (N * list N * list N * option (list N * list N * list N * list N))%type.
+Fixpoint nodupb (l : list N) : bool :=
+  match l with [] => true | x :: r => negb (existsb (N.eqb x) r) && nodupb r end.
+Definition expect_dense (dim : N) (ps vs : list N) : list N :=
+  map (fun i => match find (fun pv => N.eqb (fst pv) i) (combine ps vs) with
+                | Some pv => norm_zero (snd pv) | None => 0 end) (N_seq dim).
+Definition check_parts (c : parts_case) : N :=
+  let '(dim, ps, vs, r) := c in
+  let pairs := combine ps vs in
+  let inrange := forallb (fun pv => N.ltb (fst pv) dim) pairs in
+  let m := from_parts dim ps vs in
+  match r with
+  | None => if inrange then V_VIOLATION else match m with None => V_OK | Some _ => V_MISMATCH end
+  | Some (ipos, ivals, iback, iget) =>
+      if negb inrange then V_VIOLATION
+      else if nodupb (map fst pairs) && negb (leq iback (expect_dense dim ps vs) && leq iget (expect_dense dim ps vs))
+      then V_VIOLATION
+      else match m with
+           | Some sv => if leq (map fst (snd sv)) ipos && leq (map snd (snd sv)) ivals && leq (to_dense sv) iback
+                        then V_OK else V_MISMATCH
+           | None => V_MISMATCH
+           end
+  end.
+
+(* fdec: tensor_compress::format::decompress_vector on a forged VectorSparse:
+   (dimension, positions as decoded ids, value bits, implementation: None = panicked / error, Some bits) *)
+Definition fdec_case := (N * list N * list N * option (list N))%type.
+Definition check_fdec (c : fdec_case) : N :=
+  let '(dim, ps, vs, r) := c in
+  match r with
+  | None => V_VIOLATION                         (* a decoder must not panic or fail on bytes it can parse *)
+  | Some back =>
+      if negb (N.eqb (N.of_nat (length back)) dim) then V_VIOLATION
+      else if leq back (fsparse_decode dim ps vs) then V_OK else V_MISMATCH
+  end.
+
 (* frames.  The serialiser and compressor are the real libraries: the case carries their outputs
    (s = bitcode bytes of the message, z = lz4 bytes of s).  Implementation results:
      frames as fres (list N); decode outcome codes: 0 = Ok and equal to the sent message,
